@@ -53,6 +53,10 @@ CHECKS = {
    "TLA+ law SameLaw of Meta.tla evaluated by TLC on line-token abstractions of (with extension, without extension) output pairs recorded from the real library for trigger-free documents; one known finding matched by signature",
    "Each of Strikethrough, Table, TaskList, Footnote, DefinitionList, Typographer, Linkify, CJK (simple, css3-draft, escaped-space only) is compared alone against core, on top of all the other extensions and on top of each single other extension (85 comparisons under rotating renderer/parser flags), plus extension.GFM against its four members; documents: the Slots.tla product, all strings of length <= 3 over a 22-symbol alphabet, repository examples, word x line-ending x wrapper combinations with wide and narrow characters, and 3000 (60000) mutated documents each also in a trigger-stripped variant; the statement's byte filters decide which documents count for which extension: 1.5 million law instances quick. TLC judges each distinct shape. The css3-draft behaviour next to ASCII punctuation is a recorded known finding, identified by a signature computed from the source and the difference.",
    "TLC, Json/IOUtils; 'www.' filtered case-insensitively", "DESIGN.md 3.11, 5/C11, 6"),
+ "C10": ("model_checking",
+   "TLA+ product-trace acceptor OptionRel.tla evaluated by TLC on per-node-event output segments of the same parsed tree rendered under option sets A and A+one option (segments cut with the verif hook RenderNode and a recording BufWriter)",
+   "For every document (Slots.tla product, repository examples, 3000 (60000) mutated documents, URL-scheme documents) and 5 extension sets (table alignment pinned to the attribute method, East-Asian suppression off) the tree is parsed once and rendered under all 8 combinations of {XHTML, HardWraps, Unsafe}; for each of the 12 edges of the option cube every node event's two segments are tokenised and TLC checks the exact rewrite: XHTML - every void element and only those gain ' />'; HardWraps - a <br> exactly before the newline of each Text with its soft-break flag and nothing else; Unsafe - differences only inside RawHTML/HTMLBlock events (placeholder versus bytes) or in the href/src value of Link/Image/AutoLink events whose unsafe URL is dangerous for the WHATWG front end. 2.0 million steps quick, deduplicated to ~3700 shapes.",
+   "TLC, Json/IOUtils; hook RenderNode (-tags verif); strict tokenizer", "DESIGN.md 3.10, 5/C10"),
 }
 
 NOT_YET = "check not built yet in this revision of /verif (see DESIGN.md section 5 for the planned TLA+ decision procedure)"
